@@ -446,7 +446,14 @@ func commonsOf(ph *c18k.Phase, N int, chain []string) (mpcsetup.SrsCommons, erro
 // commitments are used in a constraint (sum != 0).  Public P0, secrets S0, S1.
 func define(k, m int, diff bool) func(api frontend.API, p, s []frontend.Variable) error {
 	return func(api frontend.API, p, s []frontend.Variable) error {
-		if m < 0 {
+		if m == coefCircuit {
+			// every specialised coefficient (1, 2, -1, generic) on the L, R and O side, wires repeated on each side
+			u := api.Mul(s[0], s[1])
+			v := api.Mul(api.Mul(s[0], 2), api.Add(s[1], s[1]))
+			w := api.Mul(api.Neg(s[0]), api.Sub(api.Mul(s[1], 3), s[0]))
+			z := api.Mul(api.Add(s[0], s[0], s[1]), api.Sub(s[1], s[0]))
+			api.AssertIsEqual(p[0], api.Add(api.Mul(u, 2), api.Neg(v), api.Mul(w, 5), z, s[1]))
+		} else if m < 0 {
 			api.AssertIsDifferent(p[0], s[0])
 		} else {
 			t := api.Mul(s[0], s[1])
@@ -477,11 +484,25 @@ func define(k, m int, diff bool) func(api frontend.API, p, s []frontend.Variable
 	}
 }
 
+// coefCircuit: the member of the family whose constraints carry coefficients 1, 2, -1 and generic
+// ones on every side (the key evaluation has a specialised path per coefficient kind).
+const coefCircuit = -2
+
 func refEval(m int, s0, s1 *big.Int) *big.Int {
+	q := CurveID.ScalarField()
+	if m == coefCircuit {
+		mul := func(a, b *big.Int) *big.Int { return new(big.Int).Mul(a, b) }
+		u := mul(s0, s1)
+		v := mul(mul(s0, big.NewInt(2)), new(big.Int).Add(s1, s1))
+		w := mul(new(big.Int).Neg(s0), new(big.Int).Sub(mul(s1, big.NewInt(3)), s0))
+		z := mul(new(big.Int).Add(new(big.Int).Add(s0, s0), s1), new(big.Int).Sub(s1, s0))
+		r := mul(u, big.NewInt(2))
+		r.Sub(r, v).Add(r, mul(w, big.NewInt(5))).Add(r, z).Add(r, s1)
+		return r.Mod(r, q)
+	}
 	if m < 0 {
 		return big.NewInt(7)
 	}
-	q := CurveID.ScalarField()
 	t := new(big.Int).Mul(s0, s1)
 	t.Mod(t, q)
 	for j := 0; j < m; j++ {
@@ -705,6 +726,10 @@ func Run(c *vh.Check, o c18k.Opts) {
 			c.Violation(fmt.Sprintf("O:%s:chain1=%v:honest-chain-rejected", p1.Name, chains[3]), map[string]any{"error": err.Error()})
 			continue
 		}
+		if N >= 8 && c.Want("O") && o.Wants("O") {
+			mc1 := mainCommons
+			units = append(units, unit{fmt.Sprintf("%s:coefficient-kinds", p1.Name), func() { coefficientKinds(c, N, mc1) }})
+		}
 		if N >= 4 && c.Want("O") && o.Wants("O") {
 			mc0 := mainCommons
 			units = append(units, unit{fmt.Sprintf("%s:reused-powers", p1.Name), func() { reusedPowers(c, o, N, p1, mc0) }})
@@ -753,6 +778,24 @@ func Run(c *vh.Check, o c18k.Opts) {
 	if !ok {
 		c.Cap(curveName + ": deadline before all (phase, N, k) units were started")
 	}
+}
+
+// coefficientKinds: the keys of honest chains for the circuit with every coefficient kind on every side.
+func coefficientKinds(c *vh.Check, N int, mainCommons mpcsetup.SrsCommons) {
+	ccs, err := frontend.Compile(CurveID.ScalarField(), r1cs.NewBuilder, circ.New(1, 2, define(0, coefCircuit, false)), frontend.IgnoreUnconstrainedInputs())
+	if err != nil {
+		c.Fatal("coefficient circuit: %v", err)
+	}
+	ci := &circuit{k: 0, m: coefCircuit, nbCons: ccs.GetNbConstraints(), ccs: ccs.(*cs.R1CS)}
+	if ci.nbCons > N {
+		return
+	}
+	mc := mainCommons
+	q := phase2(N, ci, &mc, fmt.Sprintf(":coefficient-kinds(%d constraints)", ci.nbCons), false)
+	for _, ch := range [][]string{{}, {"a1"}} {
+		checkKeys(c, fmt.Sprintf("%s:chain1=%v", q.Name, chains[3]), N, ci, &mc, q, ch)
+	}
+	c.Outcome(fmt.Sprintf("O:coefficient-kinds:N=%d", N))
 }
 
 // reusedPowers: generic powers of tau reused for a SMALLER circuit (phase-1 domain N strictly larger
